@@ -66,11 +66,12 @@ CHECKS = {
          'model-checked well-defined and refined by the implementation loops on all span trees <= 4 (thorough 5) nodes.',
          'TLC model checking (LocFindMC) + TLC trace validation (LocTrace) of recorded observations with stdlib-only oracles'),
  'C09': ('model_checking', '4-C09',
-         'Explicit TLA+ specification of Python grouping written from python.gram (Prec.tla); TLC proves exhaustively that '
-         'its level arithmetic equals a derivation over the grammar productions for all 142 slots x 71 kinds and emits the '
-         'table; every row is bound to CPython by ast.parse (0 disagreements) and the real replace/put/assignment is executed '
-         'for every valid row x target layouts x child layouts x code forms; TLC judges Carried / Regroup / ParsWhenNeeded / '
-         'NeededParsKept on the recorded facts.',
+         'Explicit TLA+ specification of Python grouping written from python.gram (Prec.tla: expressions, targets, patterns, '
+         'f-string replacement fields, literal patterns, annotation targets). TLC proves its level arithmetic equal to a '
+         'derivation over the grammar productions for all 166 slots x 79 kinds and emits the table; every row is bound to '
+         'CPython by ast.parse/compile with 0 disagreements. The real pfst replace / put / assignment is executed for every '
+         'valid row x target layouts x child layouts x code forms, plus every invalid kind on the strict slots, and TLC judges '
+         'Carried / RefusedCleanly / Regroup / ParsWhenNeeded / NeededParsKept on the recorded facts.',
          'TLC model checking with spec-generated exhaustive case table, two-sided conformance (spec<->CPython, pfst<->spec) '
          'by TLC trace validation'),
  'C19': ('model_checking', '4-C19',
